@@ -126,6 +126,7 @@ def main(argv):
         print("tier must be quick or thorough")
         return 2
     seed = core.env_seed()
+    core.prune_cache()
     rng = random.Random(f"{prop_id}:{seed}")
     t0 = time.time()
     known = core.load_known()
